@@ -21,6 +21,12 @@ pub struct Case {
   pub coarse: bool,
   /// a second subscriber joins each group ahead of the probe and leaves at once (closed entry in front)
   pub bystander: bool,
+  /// Some(d): a group is not subscribed at its announcement but only after d further source
+  /// events (hot sources, plain keys only): it is owed the later items of its key and the terminal
+  pub late: Option<usize>,
+  /// the observer of the stream of groups reports finished as soon as any group's subscriber
+  /// has received a terminal (what a flattening consumer does when an inner stream fails)
+  pub outer_finishes: bool,
 }
 
 /// key whose hash only looks at the lowest bit
@@ -36,7 +42,23 @@ impl std::hash::Hash for CK {
 struct Outer<S> {
   log: Log,
   bystander: bool,
+  done: Option<std::sync::Arc<std::sync::atomic::AtomicBool>>,
+  pending: Option<std::sync::Arc<std::sync::Mutex<Vec<(i64, KeyObservable<i64, S>)>>>>,
   _s: std::marker::PhantomData<S>,
+}
+
+fn arm_done(done: &Option<std::sync::Arc<std::sync::atomic::AtomicBool>>, probe: u32) {
+  if let Some(d) = done {
+    let d = d.clone();
+    set_local_cb(
+      probe,
+      std::rc::Rc::new(move |n: &N| {
+        if n.is_terminal() {
+          d.store(true, std::sync::atomic::Ordering::SeqCst);
+        }
+      }),
+    );
+  }
 }
 
 macro_rules! impl_outer {
@@ -48,6 +70,12 @@ macro_rules! impl_outer {
         if self.bystander {
           g.clone().actual_subscribe(Probe::new(300 + key as u32, &self.log)).unsubscribe();
         }
+        if let Some(p) = &self.pending {
+          // subscribed later by the driver
+          p.lock().unwrap().push((key, g));
+          return;
+        }
+        arm_done(&self.done, 100 + key as u32);
         // attached as the group is announced, so it sees the group's first item
         g.actual_subscribe(Probe::new(100 + key as u32, &self.log));
       }
@@ -58,7 +86,7 @@ macro_rules! impl_outer {
         self.log.push(1, K::N(N::Complete));
       }
       fn is_finished(&self) -> bool {
-        false
+        self.done.as_ref().map_or(false, |d| d.load(std::sync::atomic::Ordering::SeqCst))
       }
     }
   };
@@ -75,6 +103,7 @@ macro_rules! impl_outer_ck {
         if self.bystander {
           g.clone().actual_subscribe(Probe::new(300 + key as u32, &self.log)).unsubscribe();
         }
+        arm_done(&self.done, 100 + key as u32);
         g.actual_subscribe(Probe::new(100 + key as u32, &self.log));
       }
       fn error(self, e: E) {
@@ -84,7 +113,7 @@ macro_rules! impl_outer_ck {
         self.log.push(1, K::N(N::Complete));
       }
       fn is_finished(&self) -> bool {
-        false
+        self.done.as_ref().map_or(false, |d| d.load(std::sync::atomic::Ordering::SeqCst))
       }
     }
   };
@@ -100,8 +129,13 @@ pub fn observe(c: &Case) -> Result<Vec<Ev>, String> {
     let bystander = c.bystander;
     let coarse = c.coarse;
     let script = c.script.clone();
+    let late = c.late;
+    let done: Option<std::sync::Arc<std::sync::atomic::AtomicBool>> = if c.outer_finishes { Some(Default::default()) } else { None };
     macro_rules! go {
       ($subj:ty) => {{
+        #[allow(clippy::type_complexity)]
+        let pending: Option<std::sync::Arc<std::sync::Mutex<Vec<(i64, KeyObservable<i64, $subj>)>>>> =
+          if late.is_some() && !coarse && !c.cold { Some(Default::default()) } else { None };
         if c.cold {
           let s2 = script.clone();
           create(move |mut s: Subscriber<_>| {
@@ -123,7 +157,7 @@ pub fn observe(c: &Case) -> Result<Vec<Ev>, String> {
               }
             }
           })
-          .actual_subscribe(Outer::<$subj> { log: log.clone(), bystander, _s: Default::default() });
+          .actual_subscribe(Outer::<$subj> { log: log.clone(), bystander, done: done.clone(), pending: pending.clone(), _s: Default::default() });
         } else if coarse {
           let mut src = Subject::<'static, V, E>::default();
           src
@@ -138,7 +172,7 @@ pub fn observe(c: &Case) -> Result<Vec<Ev>, String> {
                 })
               }
             })
-            .actual_subscribe(Outer::<$subj> { log: log.clone(), bystander, _s: Default::default() });
+            .actual_subscribe(Outer::<$subj> { log: log.clone(), bystander, done: done.clone(), pending: pending.clone(), _s: Default::default() });
           for n in script.clone() {
             match n {
               N::Next(v) => src.next(v),
@@ -160,12 +194,34 @@ pub fn observe(c: &Case) -> Result<Vec<Ev>, String> {
                 }
               }
             })
-            .actual_subscribe(Outer::<$subj> { log: log.clone(), bystander, _s: Default::default() });
+            .actual_subscribe(Outer::<$subj> { log: log.clone(), bystander, done: done.clone(), pending: pending.clone(), _s: Default::default() });
+          // (key, events still to wait, handle)
+          let mut waiting: Vec<(i64, usize, KeyObservable<i64, $subj>)> = vec![];
           for n in script {
             match n {
               N::Next(v) => src.next(v),
               N::Err(e) => src.clone().error(e),
               N::Complete => src.clone().complete(),
+            }
+            if let (Some(p), Some(d)) = (&pending, late) {
+              // groups announced by this event start waiting; the others count down
+              for w in waiting.iter_mut() {
+                w.1 = w.1.saturating_sub(1);
+              }
+              for (k, g) in p.lock().unwrap().drain(..) {
+                waiting.push((k, d, g));
+              }
+              let mut rest = vec![];
+              for (k, left, g) in waiting.drain(..) {
+                if left == 0 {
+                  log.mark(1, "late_subscribe", k);
+                  arm_done(&done, 100 + k as u32);
+                  g.actual_subscribe(Probe::new(100 + k as u32, &log));
+                } else {
+                  rest.push((k, left, g));
+                }
+              }
+              waiting = rest;
             }
           }
         }
@@ -211,6 +267,49 @@ pub fn judge(c: &Case, o: &Result<Vec<Ev>, String>) -> Option<(String, serde_jso
   if let Some(t) = &term {
     for v in per.values_mut() {
       v.push(t.clone())
+    }
+  }
+  // late subscription (hot source, plain keys): a group announced by source event a is subscribed
+  // after event a+d; it is owed the items of its key that follow, and the terminal if that follows too
+  let late = if !c.cold && !c.coarse { c.late } else { None };
+  if let Some(d) = late {
+    let mut first_at: std::collections::BTreeMap<i64, usize> = Default::default();
+    let mut nth2 = 0i64;
+    let mut keyed: Vec<Option<i64>> = vec![];
+    for n in &src {
+      match n {
+        N::Next(v) => {
+          let k = match c.chunk {
+            Some(n) => nth2 / n,
+            None => c.key.eval(v),
+          };
+          nth2 += 1;
+          keyed.push(Some(k));
+        }
+        _ => keyed.push(None),
+      }
+    }
+    for (i, k) in keyed.iter().enumerate() {
+      if let Some(k) = k {
+        first_at.entry(*k).or_insert(i);
+      }
+    }
+    for (k, a) in &first_at {
+      let sub_after = a + d; // subscribed once event index a+d has been processed
+      let mut exp = vec![];
+      if sub_after < src.len() {
+        for (i, n) in src.iter().enumerate() {
+          if i <= sub_after {
+            continue;
+          }
+          match n {
+            N::Next(v) if keyed[i] == Some(*k) => exp.push(N::Next(v.clone())),
+            N::Next(_) => {}
+            t => exp.push(t.clone()),
+          }
+        }
+      }
+      per.insert(*k, exp);
     }
   }
   let announced: Vec<i64> = evs.iter().filter_map(|e| if let K::Mark("group", k) = e.k { Some(k) } else { None }).collect();
@@ -281,7 +380,13 @@ fn check(cfg: &Cfg, rep: &mut Report, id: &str, c: &Case) {
   if c.bystander {
     rep.count("cases_with_a_closed_subscriber_ahead_in_each_group", 1);
   }
-  let res = judge(c, &o).or_else(|| if !c.cold && c.chunk.is_none() && !c.coarse && !c.bystander { flatten_check(c) } else { None });
+  if c.late.is_some() && !c.cold && !c.coarse {
+    rep.count("cases_with_groups_subscribed_late", 1);
+  }
+  if c.outer_finishes {
+    rep.count("cases_where_the_outer_observer_finishes_during_the_terminal", 1);
+  }
+  let res = judge(c, &o).or_else(|| if !c.cold && c.chunk.is_none() && !c.coarse && !c.bystander && c.late.is_none() && !c.outer_finishes { flatten_check(c) } else { None });
   if let Some((kind, detail)) = res {
     rep.violation(&kind, if c.threads_subject { "group_by[SubjectThreads]" } else { "group_by[Subject]" }, id, json!({"case": format!("{:?}", c), "result": detail}));
   } else if let Ok(evs) = &o {
@@ -309,11 +414,11 @@ pub fn run(cfg: &Cfg, rep: &mut Report) {
           if cold && idx % 4 != 0 {
             continue;
           }
-          check(cfg, rep, &format!("enum:{}", idx), &Case { key: key.clone(), script: s.clone(), threads_subject, cold, chunk: None, coarse: false, bystander: false });
+          check(cfg, rep, &format!("enum:{}", idx), &Case { key: key.clone(), script: s.clone(), threads_subject, cold, chunk: None, coarse: false, bystander: false, late: if !cold && idx % 5 == 0 { Some(idx % 3) } else { None }, outer_finishes: idx % 7 == 0 });
           if *key == KeyF::Const {
             // the same scripts with the stateful discriminators in place of the constant one
             for n in [1i64, 2, 3] {
-              check(cfg, rep, &format!("enum:{}:chunk{}", idx, n), &Case { key: key.clone(), script: s.clone(), threads_subject, cold, chunk: Some(n), coarse: !cold && idx % 2 == 0, bystander: idx % 3 == 0 });
+              check(cfg, rep, &format!("enum:{}:chunk{}", idx, n), &Case { key: key.clone(), script: s.clone(), threads_subject, cold, chunk: Some(n), coarse: !cold && idx % 2 == 0, bystander: idx % 3 == 0, late: None, outer_finishes: idx % 4 == 0 });
             }
           }
         }
@@ -336,6 +441,8 @@ pub fn run(cfg: &Cfg, rep: &mut Report) {
       chunk: if r.chance(1, 5) { Some(1 + r.below(3) as i64) } else { None },
       coarse: r.chance(1, 3),
       bystander: r.chance(1, 3),
+      late: if r.chance(1, 4) { Some(r.below(3)) } else { None },
+      outer_finishes: r.chance(1, 4),
     };
     check(cfg, rep, &format!("rand:{}", i), &c);
   }
